@@ -529,3 +529,22 @@ _ATT = "        sg = rng.bit_generator._seed_seq.spawn(len(tasks))\n        for 
 T("C16", MP, _ATT, "        sg = rng.spawn(len(tasks))\n        for i in range(len(tasks)):\n            tasks[i] = tuple(tasks[i]) + (sg[i],)\n", "Generator.spawn spelling, one child per task")
 T("C10", MP, _ATT, "        sg = rng.spawn(len(tasks))\n        for i in range(len(tasks)):\n            tasks[i] = tuple(tasks[i]) + (sg[i],)\n", "Generator.spawn spelling, one child per task")
 M("C16", "C16-ATTACH", MP, _ATT, "        tasks = [tuple(t) + (g,) for t, g in zip(tasks, rng.spawn(max(1, pool.size)))]\n", "tasks zipped with one child per worker: the rest is dropped")
+
+# ---------------------------------------------------------------- round-5 clauses
+M("C12", "C12-PATHS", SM, "        if samples is not None:\n            _tbl = QTable(samples)", "        if samples:\n            _tbl = QTable(samples)", "constructor ingests columns on truthiness")
+T("C12", SM, "        if samples is not None:\n            _tbl = QTable(samples)", "        if not (samples is None):\n            _tbl = QTable(samples)", "constructor guard spelled `not (x is None)`")
+M("C17", "C17-META", SM, "        self.tbl[key] = val\n\n    @property\n    def t_ref", "        self.tbl.add_column(val, name=key, copy=False) if key not in self.tbl.colnames else self.tbl.__setitem__(key, val)\n\n    @property\n    def t_ref", "__setitem__ aliases the caller's array")
+M("C18", "C18-PRESENT", PR, "        pars.update({p.name: p for p in self.v0_offsets})\n", "        pars.update({p.name: p for p in self.v0_offsets})\n        pars.setdefault(\"s\", xu.with_unit(pt.as_tensor_variable(0.0), u.m / u.s))\n", "constructor supplies a default jitter")
+M("C09", "C09-WIRE", PR, "        pars.update({p.name: p for p in self.v0_offsets})\n", "        pars.update({\"dv0_%d\" % (i + 1): p for i, p in enumerate(self.v0_offsets)})\n", "offset priors keyed by position")
+T("C09", PR, "        pars.update({p.name: p for p in self.v0_offsets})\n", "        for off in self.v0_offsets:\n            pars[off.name] = off\n", "offset priors registered in a loop")
+M("C16", "C16-RUN", MP, "    if rng is not None:\n        from numpy.random import PCG64, Generator\n", "    tasks = [task for task in tasks if len(task[0]) > 0]\n    if rng is not None:\n        from numpy.random import PCG64, Generator\n", "task list filtered")
+M("C15", "C15-IO", DT, "        t_ref = ts.meta.get(\"t_ref\", None)\n        return cls(t=ts[\"time\"]", "        ts.sort(\"time\")\n        t_ref = ts.meta.get(\"t_ref\", None)\n        return cls(t=ts[\"time\"]", "table sorted before construction")
+M("C13", "C13-LOCK", UT, "    if isinstance(slice_or_idx, tuple):\n        # read a contiguous batch of prior samples\n        batch = read_batch(", "    import threading\n    _g = threading.Lock()\n    _g.acquire()\n    if isinstance(slice_or_idx, tuple):\n        # read a contiguous batch of prior samples\n        batch = read_batch(", "lock acquired and never released in a finally")
+M("C12", "C12-REFUSE", SH, "        finally:\n            f.close()\n", "        except Exception:\n            f.close()\n            os.remove(output)\n            raise\n        finally:\n            f.close()\n", "failed write by file name deletes the file (also on append)")
+M("C10", "C10-LIBRNG", TJ, "            MAP_sample = joker_samples.median_period()\n", "            from sklearn.cluster import KMeans\n            KMeans(n_clusters=2).fit(np.log(joker_samples['P'].value).reshape(-1, 1))\n            MAP_sample = joker_samples.median_period()\n", "setup_mcmc runs an unseeded KMeans")
+M("C11", "C11-PURE", SA, "    P_samples = samples['P'].to(u.day).value\n    P_min = np.min(P_samples)\n", "    P_samples = samples['P'].to_value(u.day)\n    P_samples.sort()\n    P_min = P_samples[0]\n", "is_P_unimodal sorts a view of the caller's periods")
+T("C11", SA, "    P_samples = samples['P'].to(u.day).value\n    P_min = np.min(P_samples)\n", "    P_samples = np.sort(samples['P'].to_value(u.day))\n    P_min = P_samples[0]\n", "is_P_unimodal sorts a copy")
+M("C08", "C08-COL", TJ, "        return CJokerHelper(all_data, self.prior, trend_M)\n", "        trend_M[:, 0] = 1.0\n        return CJokerHelper(all_data, self.prior, trend_M)\n", "design matrix edited before it reaches the kernel")
+M("C11", "C11-TREND", DH, "    return all_data, ids, trend_M\n", "    return all_data, ids[np.argsort(t)], trend_M\n", "labels returned in another order than the design matrix used")
+M("C04", "C04-INFER", SM, "            samples[\"ln_posterior\"] = posterior.logp.to_numpy().ravel()\n", "            samples[\"ln_posterior\"] = posterior.logp.to_numpy().T.ravel()\n", "log-posterior flattened in another order than the parameters")
+M("C05", "C05-DTYPE", UT, "                batch = np.zeros((len(arr), len(columns)), dtype=arr.dtype)\n", "                batch = np.zeros((len(arr), len(columns)))\n", "slice reader allocates double precision up front")
